@@ -15,7 +15,8 @@ of `renderItem it` is `C14Lexer.TokWF` (`itemLexOK_iff`), and `TokWF` itself is 
 (`C14Lexer.tokWF_exact`).  What it says, construct by construct:
 
 * `{param}`, `$var`: the name is a non-empty string of name characters `[a-zA-Z0-9_:]`;
-* integers: a non-empty string of digits; strings: no `"`; dates: the Date rule of the lexer
+* integers: a non-empty string of digits (the same for the digits of a signed literal
+  `-5`; its sign is the Operator token `-`, always well formed); strings: no `"`; dates: the Date rule of the lexer
   accepts exactly the whole text; bytes: an even number of hex digits; booleans: nothing;
 * sets: every element, as an atom (a set inside a set renders to NO token, so there is
   nothing to check; such a term is not `ItemWF` anyway);
@@ -45,12 +46,14 @@ open Biscuit.TextRoundtrip
 
 /-! ## Lexical well-formedness of the syntax tree -/
 
-/-- An atom (what may stand inside a set): its one token is `TokWF`.  A set in this position
-renders to no token. -/
+/-- An atom (what may stand inside a set): its one token is `TokWF` (a signed integer literal
+has two, the Operator token `-` and the digits; the same digit condition as for `.int`).  A set
+in this position renders to no token. -/
 def atomLexOK : PTerm → Bool
   | .param n => nameOK n.toList                     -- `{` [a-zA-Z0-9_:]+ `}`
   | .var n => nameOK n.toList                       -- `$` [a-zA-Z0-9_:]+
   | .int ds => !ds.isEmpty && ds.all isDigit        -- [0-9]+
+  | .negInt ds => !ds.isEmpty && ds.all isDigit     -- `-` [0-9]+ (the token `-` is always well formed)
   | .str s => s.all (· != '"')                      -- no quote inside
   | .date s => lexDate s == some (s, [])            -- the Date rule accepts `s` completely
   | .bytes ds => ds.all isHexDigit && ds.length % 2 == 0
@@ -124,7 +127,7 @@ theorem method_placeholder_not_lexable :
 /-! ## `*LexOK` says exactly that every rendered token is `TokWF` -/
 
 theorem atomLexOK_iff (t : PTerm) : atomLexOK t = true ↔ ∀ tok ∈ atomToks t, TokWF tok := by
-  cases t <;> simp [atomLexOK, atomToks, TokWF, tokWF]
+  cases t <;> simp [atomLexOK, atomToks, TokWF, tokWF, opLits]
 
 theorem termLexOK_iff (t : PTerm) : termLexOK t = true ↔ ∀ tok ∈ renderTermToks t, TokWF tok := by
   cases t with
@@ -147,6 +150,7 @@ theorem termLexOK_iff (t : PTerm) : termLexOK t = true ↔ ∀ tok ∈ renderTer
   | param n => exact atomLexOK_iff (.param n)
   | var n => exact atomLexOK_iff (.var n)
   | int ds => exact atomLexOK_iff (.int ds)
+  | negInt ds => exact atomLexOK_iff (.negInt ds)
   | str s => exact atomLexOK_iff (.str s)
   | date s => exact atomLexOK_iff (.date s)
   | bytes ds => exact atomLexOK_iff (.bytes ds)
